@@ -47,6 +47,9 @@ pub enum Step {
     /// Nothing is sent: the (paused) clock advances by n tenths of the inactivity timeout, so that
     /// the runtime's tasks can reach their timeouts at different moments.
     Wait(u32),
+    /// Nothing is sent on the remote's channel: an HTTP GET for the named lane is handed to the
+    /// runtime's HTTP task (activity of that task only when the lane does not exist).
+    Http(String),
 }
 
 impl Step {
@@ -54,6 +57,7 @@ impl Step {
         match self {
             Step::Link(l) | Step::Sync(l) | Step::Unlink(l) | Step::Cmd(l, _) => l,
             Step::Wait(_) => "",
+            Step::Http(l) => l,
         }
     }
 }
@@ -253,6 +257,7 @@ pub struct AsWorld {
     quiescent_reports: Vec<(String, Option<(u64, u64, u64)>)>,
     store_log: Option<Arc<StoreLog>>,
     _http_tx: mpsc::Sender<swimos_api::agent::HttpLaneRequest>,
+    http_responses: Vec<swimos_api::agent::HttpResponseReceiver>,
     checker: Checker,
     // restart machinery
     second: Option<Second>,
@@ -594,6 +599,7 @@ impl World for AsWorld {
             quiescent_reports: vec![],
             store_log,
             _http_tx: http_tx,
+            http_responses: vec![],
             checker: GLOBAL_CHECKER.get().copied().unwrap_or(noop_checker),
             second: None,
             killed: false,
@@ -952,6 +958,15 @@ impl World for AsWorld {
                     }
                     self.log(format!("clock advances by {}/10 of the inactivity timeout{}", n, if self.subject.runnable() { " (the runtime has work pending)" } else { "" }));
                     tokio::time::advance(INACTIVE_TIMEOUT * n / 10 + Duration::from_millis(1)).await;
+                } else if let Step::Http(lane) = &item {
+                    let uri: swimos_api::http::Uri = format!("/node?lane={}", lane).parse().expect("uri");
+                    let req = swimos_api::http::HttpRequest::get(uri).map(|_| bytes::Bytes::new());
+                    let (req, rx) = swimos_api::agent::HttpLaneRequest::new(req);
+                    let _ = self._http_tx.try_send(req);
+                    self.http_responses.push(rx);
+                    r.sent.push((step, item.clone()));
+                    self.script_pos += 1;
+                    self.log(format!("HTTP GET for lane {}", lane));
                 } else {
                 let path = RelativeAddress::new(NODE, item.lane());
                 let msg: RequestMessage<&str, &[u8]> = match &item {
@@ -959,7 +974,7 @@ impl World for AsWorld {
                     Step::Sync(_) => RequestMessage::sync(r.id, path),
                     Step::Unlink(_) => RequestMessage::unlink(r.id, path),
                     Step::Cmd(_, body) => RequestMessage::command(r.id, path, body.as_bytes()),
-                    Step::Wait(_) => unreachable!(),
+                    Step::Wait(_) | Step::Http(_) => unreachable!(),
                 };
                 let mut buf = BytesMut::new();
                 let mut enc = RawRequestMessageEncoder;
